@@ -1,6 +1,7 @@
 package main
 
 import (
+	"os"
 	"go/token"
 	"go/constant"
 	"fmt"
@@ -172,6 +173,13 @@ func (a *Analysis) CheckC07(rep *Report) {
 	for _, ct := range a.U.Types {
 		probs, pos := a.mirrorProblems(ct)
 		rep.Ob("S1-reads-mirror-writes", ct.Name, len(probs) == 0, pos, strings.Join(probs, "; "))
+		// S4: a complete message followed by anything is decoded, not refused – an error path that is neither a failed read
+		// nor an exact availability check turns away a message whose bytes are all there (the condition may even depend
+		// on what follows the message)
+		if tlr := a.Layouts(ct); tlr.R != nil {
+			rej := a.spuriousRejections(tlr.R.DecPaths, false)
+			rep.Ob("S4-complete-message-accepted", ct.Name, len(rej) == 0, pos, "Decode can refuse a message whose bytes are all present: "+strings.Join(rej, "; "))
+		}
 		r := a.Result(ct)
 		if !rep.Ob("S0-analysable", ct.Name, r.DecErr == nil && len(r.DecPaths) > 0, pos, fmt.Sprint("Decode not analysable: ", r.DecErr)) {
 			continue
@@ -938,7 +946,9 @@ func saysAtMost(c Cond, small int) bool {
 // spuriousRejections: error paths of a decoder that are not caused by a failed read, a failed nested Decode or an
 // unknown discriminator. The only legitimate such path is an exact availability check (n > buf.Len(), compared as
 // ints): anything else refuses bytes the encoder can produce.
-func (a *Analysis) spuriousRejections(paths []*Path) []string {
+// rootGeneric: the paths are those of a generic function's own body (type parameters symbolic); tests on values of a
+// type parameter's type are then left to the instantiations, which are analysed as well.
+func (a *Analysis) spuriousRejections(paths []*Path, rootGeneric bool) []string {
 	var out []string
 	seen := map[string]bool{}
 	ms := &safety{a: a, minSizeMemo: map[string]int64{}}
@@ -1131,7 +1141,7 @@ func (a *Analysis) spuriousRejections(paths []*Path) []string {
 				// need > Len() refuses only truncated input if the reads that follow on the success paths really consume at
 				// least `need` bytes: a guard asking for more (n+1 for an n-byte text, 29 for a 28-byte record) refuses a
 				// complete value that ends the input
-				generic := last.V.Contains(func(x *Val) bool {
+				generic := rootGeneric && last.V.Contains(func(x *Val) bool {
 					if x.Type == nil {
 						return false
 					}
@@ -1140,7 +1150,19 @@ func (a *Analysis) spuriousRejections(paths []*Path) []string {
 				})
 				// (in a generic body the prefix has a symbolic type: its instantiations, all analysed, decide)
 				if o.Op == "buflen" && !generic {
-					if need := affOf(last.V.Args[1-side]); !need.Top {
+					need := affOf(last.V.Args[1-side])
+					opaque := need.Top
+					for _, sym := range need.Sym {
+						if sym != nil && (sym.Op == "binop" || sym.Op == "buflen" || sym.Op == "unknown") {
+							opaque = true // a product of two measured or read values, a difference of Len() observations …
+						}
+					}
+					if opaque {
+						// what is asked for is not a sum of sizes (a product of two values read or measured, say): nothing
+						// shows that the reads that follow need that much
+						continue
+					}
+					if !need.Top {
 						short := false
 						for _, got := range consumedAfter(o.ID) {
 							if d := got.Add(need, -1); !d.Top && !affAtLeastZero(d) {
@@ -1204,6 +1226,9 @@ func (a *Analysis) spuriousRejections(paths []*Path) []string {
 		}
 		last := conds[len(conds)-1]
 		if guardOK(last, conds[:len(conds)-1]) {
+			if os.Getenv("FPDEBUG") == "rej" {
+				fmt.Fprintln(os.Stderr, "  guardOK true for", last.String())
+			}
 			return true, nil
 		}
 		// the availability guard may be followed by tests that only pick the error to report (nothing left at all:
@@ -1227,7 +1252,7 @@ func (a *Analysis) spuriousRejections(paths []*Path) []string {
 			// bytes an encoder produced – for the literal arguments of the message codecs such a test is a constant
 			return true, nil
 		}
-		if last.V.Contains(func(x *Val) bool {
+		if rootGeneric && last.V.Contains(func(x *Val) bool {
 			if x.Type == nil {
 				return false
 			}
@@ -1243,6 +1268,10 @@ func (a *Analysis) spuriousRejections(paths []*Path) []string {
 	for _, p := range paths {
 		if pathKind(p) != "err" || a.tableMiss(p) {
 			continue
+		}
+		if os.Getenv("FPDEBUG") == "rej" {
+			ok, c := justified(p.Events, p.Conds)
+			fmt.Fprintln(os.Stderr, "justified:", ok, c != nil, condString(p.Conds))
 		}
 		if ok, c := justified(p.Events, p.Conds); !ok && c != nil {
 			k := c.String()
